@@ -31,13 +31,48 @@ class P(Prop):
         out = []
         for _ in range(self.n_cases(tier, override)):
             plant = pg.gen_mechanical_plant(rng)
-            out.append({"plant": plant, "inp": pg.gen_mechanical_inputs(rng, plant)})
+            inp = pg.gen_mechanical_inputs(rng, plant)
+            n = inp["n"]
+            # a shaft line sailed purely electrically: every engine of the line off for the whole series, full PTI throughout
+            if rng.random() < 0.2:
+                for ln in plant["lines"]:
+                    idx = [i for i, d in enumerate(plant["mech"]) if d["line"] == ln]
+                    if any(plant["mech"][i]["cls"] == "ptipto" for i in idx) and rng.random() < 0.7:
+                        for i in idx:
+                            if plant["mech"][i]["cls"] in ENG:
+                                inp["comps"][i]["status"] = [False] * n
+                            elif plant["mech"][i]["cls"] == "ptipto":
+                                inp["comps"][i]["full"] = [True] * n
+            case = {"plant": plant, "inp": inp}
+            # a second balance on the same object after ONLY the operating mode changed (engine statuses, full-PTI
+            # flags); loads and PTI/PTO set-points stay as they are
+            if rng.random() < 0.35:
+                import copy
+                inp2 = copy.deepcopy(inp)
+                for d, ci in zip(plant["mech"], inp2["comps"]):
+                    if d["cls"] in ENG:
+                        ci["status"] = [rng.random() < 0.7 for _ in range(n)]
+                    elif d["cls"] == "ptipto":
+                        ci["full"] = [rng.random() < 0.3 for _ in range(n)]
+                case["inp2"] = inp2
+            out.append(case)
         return out
 
     def run(self, case):
-        plant, inp = case["plant"], case["inp"]
+        plant = case["plant"]
         sysm, objs = pg.build_mechanical_system(plant)
-        pg.apply_mechanical_inputs(sysm, objs, plant, inp)
+        pg.apply_mechanical_inputs(sysm, objs, plant, case["inp"])
+        res = self.balance_and_observe(plant, sysm, objs)
+        if case.get("inp2"):
+            for d, o, ci in zip(plant["mech"], objs, case["inp2"]["comps"]):
+                if d["cls"] in ENG:
+                    sysm.set_status_main_engine_for_name_shaft_line_id(d["name"], d["line"], np.array(ci["status"], dtype=bool))
+                elif d["cls"] == "ptipto":
+                    sysm.set_full_pti_mode_for_name_shaft_line_id(d["name"], d["line"], np.array(ci["full"], dtype=bool))
+            res["second"] = self.balance_and_observe(plant, sysm, objs)
+        return res
+
+    def balance_and_observe(self, plant, sysm, objs):
         loads_before = {i: np.array(o.power_input, dtype=float).copy() for i, (d, o) in enumerate(zip(plant["mech"], objs))
                         if d["cls"] in ("propeller", "mech_load")}
         pti_set = {i: np.array(o.power_output, dtype=float).copy() for i, (d, o) in enumerate(zip(plant["mech"], objs)) if d["cls"] == "ptipto"}
@@ -66,7 +101,13 @@ class P(Prop):
                 [i for i in idx if plant["mech"][i]["cls"] in ("propeller", "mech_load")]
 
     def term(self, case, obs):
-        plant, inp = case["plant"], case["inp"]
+        t = self.term_one(case, case["inp"], obs)
+        if case.get("inp2"):
+            t = "(" + t + "\n && " + self.term_one(case, case["inp2"], obs["second"]) + ")%bool"
+        return t
+
+    def term_one(self, case, inp, obs):
+        plant = case["plant"]
         parts = []
         for ln, engs, pti, loads in self.lines(case, obs):
             scale = core.coq_q(Fraction(max(1.0, sum(obs["rated"][i] for i in engs))))
@@ -84,7 +125,15 @@ class P(Prop):
         return "(" + "\n && ".join(parts) + ")%bool"
 
     def oracle(self, case, obs):
-        plant, inp = case["plant"], case["inp"]
+        why = self.oracle_one(case, case["inp"], obs)
+        if why is None and case.get("inp2"):
+            why = self.oracle_one(case, case["inp2"], obs["second"])
+            if why:
+                why = "second balance on the same object after only statuses / full-PTI flags changed: " + why
+        return why
+
+    def oracle_one(self, case, inp, obs):
+        plant = case["plant"]
         for k, v in obs.get("load_after", {}).items():
             if v != obs["load_in"][k]:
                 return f"the balance changed the load series of {plant['mech'][int(k)]['name']}: {obs['load_in'][k]} -> {v}"
@@ -123,6 +172,8 @@ class P(Prop):
                 ci = inp["comps"][pti]
                 if any(ci["full"]):
                     t.append("full-pti-step")
+                if all(ci["full"]) and all(not any(inp["comps"][i]["status"]) for i in engs):
+                    t.append("line-all-electric(engines off, full PTI throughout)")
                 if any(x < 0 for x in ci["shaft"]):
                     t.append("pto(negative shaft power)")
             if any(not all(inp["comps"][i]["status"]) for i in engs):
@@ -131,6 +182,8 @@ class P(Prop):
                 t.append("two-loads-on-a-line")
         for d in plant["mech"]:
             t.append("cls:" + d["cls"])
+        if case.get("inp2"):
+            t.append("second-balance-after-mode-change-only")
         return sorted(set(t))
 
     def search(self, rng, near=None):
